@@ -461,7 +461,41 @@ func runC19(c *sim.Ctx) {
 				// QueryContext returns
 				tr.SetFailAt(tr.ReadCount() + qreadsDry + failLate)
 			}
+			preCancelled := s.Chance(1, 12, "cancel-before-query")
+			if preCancelled {
+				// the context is already done when the driver is called (through database/sql
+				// this is the window between its own last check and the driver call)
+				cancel()
+				c.Fault("cancel-before-query")
+			}
 			rowsI, err := stmt.QueryContext(ctx, nil)
+			if preCancelled {
+				if err == nil {
+					r0 := rowsI.(*drv.Rows)
+					cd := make(chan error, 1)
+					go func() {
+						dest := make([]sqldriver.Value, len(r0.Columns()))
+						for r0.Next(dest) == nil {
+						}
+						cd <- r0.Close()
+					}()
+					synctest.Wait()
+					select {
+					case <-cd:
+						closeReturnedA.Store(true)
+					default:
+						fail("close-hangs", "close-hangs:cancelled-before-query", fmt.Sprintf("%s: QueryContext with an already cancelled context returned rows whose Next/Close never return", query))
+					}
+				}
+				note("QueryContext with an already cancelled context -> %v", err)
+				synctest.Wait()
+				if l, err := ownLocks(path); err == nil && len(l) > 0 {
+					fail("lock-held-after-close", "lock-held-after-rows-close", fmt.Sprintf("%s: cancelled before the query, rows closed, and the process holds %v", query, l))
+				}
+				stmt.Close()
+				synctest.Wait()
+				return
+			}
 			if err != nil {
 				if tr.HasFired() {
 					c.Probe("fault-in-query-surfaced")
